@@ -53,14 +53,29 @@ def rule_enc(ctx):
     def is_write(c):
         return isinstance(c, ast.Call) and ((isinstance(c.func, ast.Name) and c.func.id in writer_names) or is_self_call(c, {"write_line"}))
     writes = [c for c in walk_no_nested(wr) if is_write(c)]
-    if len(writes) < 4:
-        ctx.floor_errors.append(f"rule=C06.ENC: {len(writes)} line writes in write_response (floor 4)")
+    if len(writes) < 2:
+        ctx.floor_errors.append(f"rule=C06.ENC: {len(writes)} line writes in write_response (floor 2)")
     list_param = params[4] if len(params) > 4 else "list"
+    # a prefix kept in a local (`prefix = code + "-"` in one branch, `prefix = " "` in the other) is expanded: one virtual write per definition,
+    # under the guards of that definition
+    virtual = []
     for c in writes:
+        e0 = c.args[-1]
+        parts0 = flat_concat(e0)
+        alts = [([], [])]
+        for x in parts0:
+            defs = [(v, n) for k, v, n in local_defs(wr, x.id) if k == "assign"] if isinstance(x, ast.Name) and x.id != code else []
+            strish = [(v, n) for v, n in defs if isinstance(v, ast.Constant) and isinstance(v.value, str) or (isinstance(v, ast.BinOp) and isinstance(v.op, ast.Add))]
+            if defs and len(strish) == len(defs) and len(local_defs(wr, x.id)) == len(defs):
+                alts = [(ps + flat_concat(v), gs + all_guards(p, n, wr)) for ps, gs in alts for v, n in strish]
+            else:
+                alts = [(ps + [x], gs) for ps, gs in alts]
+        for ps, gs in alts:
+            virtual.append((c, ps, gs))
+    for c, parts, extra_guards in virtual:
         e = c.args[-1]
-        parts = flat_concat(e)
         desc = tuple("CODE" if isinstance(x, ast.Name) and x.id == code else repr(x.value) if isinstance(x, ast.Constant) else "TEXT:" + src(x) for x in parts)
-        guards = all_guards(p, c, wr)
+        guards = all_guards(p, c, wr) + extra_guards
         in_list = any(pol and isinstance(t, ast.Name) and t.id == list_param for t, pol in guards)
         in_loop = None
         q = p.parent.get(c)
@@ -259,10 +274,14 @@ def rule_mask(ctx):
     rets = [n for n in walk_no_nested(m) if isinstance(n, ast.Return)]
     if not rets:
         raise Inconclusive("C06.MASK: Code.matches has no return")
-    ret = rets[0].value
+    ret = deep_expand(p, rets[0].value, m)
+    negated = False
+    if isinstance(ret, ast.UnaryOp) and isinstance(ret.op, ast.Not) and isinstance(ret.operand, ast.Call):
+        ret, negated = ret.operand, True    # not any(Q) == all(not Q), not all(Q) == any(not Q)
     if not (isinstance(ret, ast.Call) and isinstance(ret.func, ast.Name) and ret.func.id in ("all", "any")):
         raise Inconclusive("C06.MASK: aggregate form not recognised: " + src(ret))
-    ctx.ob("C06.MASK", ret, "positions are aggregated with all()", ret.func.id == "all",
+    aggregate = ret.func.id if not negated else {"all": "any", "any": "all"}[ret.func.id]
+    ctx.ob("C06.MASK", ret, "positions are aggregated with all()", aggregate == "all",
            "mask matching aggregates positions with any(): one agreeing or wildcard position accepts the code", construct="matches:any")
     inner = ret.args[0]
     pred = a = b = None
@@ -282,6 +301,8 @@ def rule_mask(ctx):
                 raise Inconclusive("C06.MASK: filtered comprehension not recognised")
     if pred is None:
         raise Inconclusive("C06.MASK: per-position predicate not recognised")
+    if negated:
+        pred = ast.UnaryOp(op=ast.Not(), operand=pred)
     params = [x.arg for x in m.args.args]
     ok_pair = pair_src == [params[1], params[0]]
     ctx.ob("C06.MASK", inner, "the predicate pairs (mask char, code char) position by position", ok_pair,
